@@ -106,6 +106,28 @@ def gen_cases(ctx, corpus, quick):
                 cases.append((cc.w2x_line(cc.mutate(rng, c["bytes"]), **o), "grammar-mutated"))
     except ImportError:
         pass
+    # SyncML shapes of the XML-generator development: CDATA sections (one-byte / empty / ']]>' payloads, several content
+    # items, elements inside <Data>), <Type> rewrite, embedded DevInf / DM documents, binary-flagged elements
+    try:
+        from vlib import gen as _gen2, xmlgen
+        T2 = _gen2.tables_json()
+        for lang, root, kind in xmlgen.syncml_shapes(T2, Rng(ctx.seed, 103)):
+            b = xmlgen.serialize(lang, root)
+            for g, i in ((0, 0), (1, 2), (2, 0)):
+                cases.append((cc.w2x_line(b, gen=g, indent=i, keep=rng.below(2)), "syncml-shapes"))
+        for l in open(os.path.join(common.VERIF, "corpus", "C05.txt")):
+            f = l.split()
+            if f and not f[0].startswith("#"):
+                cases.append((cc.w2x_line(bytes.fromhex(f[0]), lang=int(f[1]) if len(f) > 1 else 0, gen=rng.below(3), indent=1), "syncml-shapes"))
+        # one-byte and empty content items in a CDATA'd <Data> (boundary of the ']]>' scan)
+        langs2 = {l["id"]: l for l in T2["langs"]}
+        for lid in (2001, 2101, 2201):
+            for items in ([('s', b"x")], [('o', b"x")], [('s', b"]")], [('s', b"x"), ('s', b"y")], [('s', b"")], [('s', b"xy")], [('s', b"]]")]):
+                for cmd in ("Add", "Replace"):
+                    b = xmlgen.serialize(langs2[lid], xmlgen.syncml_doc(T2, langs2[lid], cmd, b"text/x-vcard", items))
+                    cases.append((cc.w2x_line(b, gen=rng.below(3), indent=1, keep=rng.below(2)), "syncml-shapes"))
+    except (ImportError, FileNotFoundError):
+        pass
     # nesting at the limit, width, string-table blow-up, indentation products around 256
     L = 1000
     for n in (L - 1, L, L + 1, L + 2, 5000, 60000):
